@@ -182,7 +182,11 @@ def equiv(w, d, path="$"):
         keys = [k for k, _ in w["t"]]
         if set(keys) != set(d.keys()):
             return "%s: key sets differ: expected %r, decoded %r" % (path, sorted(keys), sorted(map(str, d.keys())))
+        seen = set()
         for k, v in w["t"]:
+            if k in seen:
+                continue        # a repeated field name: selection reads the first field of that name
+            seen.add(k)
             r = equiv(v, d[k], "%s.%s" % (path, k))
             if r:
                 return r
